@@ -57,4 +57,15 @@ PROPS = {
         "not_modelled": "f64 rounding of the budget arithmetic (compared at 1e-8); clamp of infinite multipliers",
         "assumptions": ["eps > 0, delta > 0, 0 <= share <= 1 (share < 1 when keys need thresholding)"],
     },
+    "C12": {
+        "model_targets": ["QV/Corr/C12.vo"],
+        "oracle": "the three laws evaluated on the implementation for random types over boolean/integer/float/text/optional/struct/list x 8 targets: converted value lies in the converted type, distinct values convert to distinct values, every value of a convertible type converts",
+        "trusted": [
+            "correspondence: harness/src/c12.rs (f64 bits) and QV/Corr/C12.v; Flocq 4.1 binary64 (binary_normalize, bits_of_b64) as the semantics of `as f64` / `as i64`",
+            "real-number axioms of Coq's Reals and Classical_Prop.classic (through Flocq) for the theorems about B2R",
+            "modelled, not verified: Base<Boolean,Integer>, Base<Integer,Boolean>, Base<Integer,Float>, Base<Float,Integer> value functions, intervals_image for Integer->Float, the Optional/List/Struct liftings",
+        ],
+        "not_modelled": "Display-based conversions into Text (integer, float, date, time, datetime, duration), Text->Bytes, Date<->DateTime, Enum, Union, Set, Array (oracle stream only)",
+        "assumptions": ["Rust `as` casts are IEEE round-to-nearest-even / truncating-saturating"],
+    },
 }
